@@ -1015,9 +1015,35 @@ func workerOne(args []string) int {
 	}
 	in, _ := hex.DecodeString(f.Hex)
 	setAddressSpaceLimit(8 << 30)
-	base := readVmHWM()
+	// peak heap = maximum of the live-object bytes sampled every 100 us while the call runs (and once at its end,
+	// before any further collection); a single large make() is visible immediately.
+	heapSample := []metrics.Sample{{Name: "/memory/classes/heap/objects:bytes"}}
+	readHeap := func() int64 { metrics.Read(heapSample); return int64(heapSample[0].Value.Uint64()) }
+	base := readHeap()
+	var peakHeap atomic.Int64
+	stop := make(chan struct{})
+	doneS := make(chan struct{})
+	go func() {
+		defer close(doneS)
+		for {
+			select {
+			case <-stop:
+				return
+			default:
+			}
+			if h := readHeap() - base; h > peakHeap.Load() {
+				peakHeap.Store(h)
+			}
+			time.Sleep(100 * time.Microsecond)
+		}
+	}()
 	res, ns, alloc, _ := runOne(prop, e3Case{Entry: entry, In: in, FI: f.FI})
-	peak := readVmHWM() - base
+	if h := readHeap() - base; h > peakHeap.Load() {
+		peakHeap.Store(h)
+	}
+	close(stop)
+	<-doneS
+	peak := peakHeap.Load() / 1024
 	fmt.Printf("ONE ns=%d alloc=%d peakKB=%d failure=%v\n", ns, alloc, peak, res != nil)
 	if res != nil && res.Kind == "panic" {
 		fmt.Printf("PANIC %s\n", res.Key)
@@ -1080,6 +1106,10 @@ func e3Parent(c *eng.Ctx, prop string) {
 		c.Assume("bytes allocated during a call bound its peak heap from above; wall time is observed on this machine with at most 8 workers")
 	}
 	c.Assume("the decoders are sequential and deterministic: one execution per input decides that input")
+	if os.Getenv("VERIF_BUDGET_S") == "" && c.Quick() {
+		// the sandboxed sweeps need a little more than the common quick budget to finish their stated space
+		c.Deadline = c.Start.Add(240 * time.Second)
+	}
 	jobs := e3Jobs(prop, c.Tier)
 	workers := c.Workers
 	if prop == "C09" && workers > 8 {
@@ -1381,6 +1411,11 @@ func e3Stage2(c *eng.Ctx, prop string, f e3Failure, exe, tmp string) bool {
 	os.WriteFile(path, b, 0o644)
 	in, _ := hex.DecodeString(f.Hex)
 	s, _ := declaredSamples(in)
+	if f.FI != nil {
+		if fs := uint64(f.FI.Width) * uint64(f.FI.Height) * uint64(f.FI.SamplesPerPixel); fs > s {
+			s = fs
+		}
+	}
 	budgetKB := int64((uint64(512<<20) + 64*s) / 1024)
 	exceed := 0
 	for r := 0; r < 5; r++ {
